@@ -386,6 +386,12 @@ pub async fn sanitize_async_with_config<R: AsyncRead + AsyncSkip>(
         }
     }
 
+    // Inputs whose `skip` succeeds past the end of the stream (e.g. anything implementing `Seek`) don't report a box
+    // extending past the end of the input when it is skipped, so check for that here.
+    if reader.as_mut().stream_position().await? > reader.as_mut().stream_len().await? {
+        bail_attach!(ParseError::TruncatedBox, "input ended before the end of a box");
+    }
+
     let Some(ftyp) = ftyp else {
         bail_attach!(ParseError::MissingRequiredBox(BoxType::FTYP));
     };
